@@ -35,8 +35,6 @@ def classify(src, out):
                 depth -= 1
         if mx >= 25 or src.count("\n    ") >= 25 or len(src) > 400:
             return "KF-C03-recursion-limit"
-    if out.get("cls") == "UnicodeEncodeError" and any(0xD800 <= ord(c) <= 0xDFFF for c in src):
-        return "KF-C03-lone-surrogate"
     return None
 
 
@@ -44,6 +42,9 @@ def build_inputs(tier):
     r = rng("C03")
     N = 1 if tier == "quick" else 40
     cases = []
+    # the witnesses of the recorded findings run first, in every run
+    cases.append(("kf-witness", "x = " + "(" * 120 + "y" + ")" * 120 + "\n", "exec"))
+    cases.append(("kf-witness", "s = '\ud800'\n", "exec"))
     for _ in range(1500 * N):
         cases.append(("soup", mutate.soup(r), r.choice(["exec", "exec", "eval"])))
     base = list(corpus.PY_STMTS) + list(xonshgen.XONSH_STMTS) + [s + "\n" for s in corpus.FSTRINGS] + [p[0] + "\n" for p in corpus.xonsh_pairs()]
@@ -87,9 +88,26 @@ def run(rep, tier, pool, variants=("shipped",)):
         "every input is non-trivial; distinct by (text, mode)"
     )
     cases = build_inputs(tier)
+    # both entry points in a child interpreter whose locale is not UTF-8: whatever is raised must still be a SyntaxError
+    from harness.props import c11, c12
+
+    nonascii = ["# caf\u00e9\nx = = 1\n", "s = '\u00e9' +\n", "\u00f1 = (1 2)\n", "def \u00fc(:\n", "x = '\u00df'\ny = [1,\n", "$(echo \u00f1\n", "f!(\u00e9]\n"]
+    loc_files = [("locale", s) for s in nonascii] + [("locale", "# \u00fc\n" + s) for s in c11.INVALID_SNIPPETS[:40]]
+    for env_name, res in c12.run_children(loc_files, [e for e in c12.ENVS if e[0] in ("C", "latin1")]).items():
+        for fname, a, b in res:
+            src = loc_files[int(fname[:5])][1]
+            for entry, o in (("parse_file", a), ("parse_string", b)):
+                rep.case((env_name, entry, src), True)
+                rep.count(f"locale:{env_name}:{o['k']}")
+                if o["k"] == "exc" and o.get("cls") != "RecursionError":
+                    rep.violation(f"C03 {entry} under locale {env_name} raised {o.get('cls')}: {short(o.get('msg'), 60)} on {short(src, 50)}",
+                                  {"property": "C03", "input": src, "entry_point": entry, "environment": dict(c12.ENVS)[env_name], "observed": o})
     for variant in variants:
         res = pool.call("harness.props.c03:check_one", [(s, m, variant) for _, s, m in cases], timeout=10)
         for (kind, src, mode), o in zip(cases, res):
+            if o.get("k") == "not-run":
+                rep.count("not-run-after-many-hangs")
+                continue
             rep.case((src, mode), True, sample={"src": src[:80], "mode": mode} if kind == "soup" else None)
             if o.get("ok"):
                 rep.count(f"{kind}:{o['ok']}")
